@@ -118,3 +118,48 @@ def run(ctx):
                 ctx.ob('2j record-id-read-under-same-lock %s' % fn, 'K4-provenance', fn, 'the record id handed to the walk is read from the locked overlay (LogOverlays::last_record_id)', any(c.endswith('::last_record_id') for c in sl), '')
     # 3. read layering (tree arm)
     shared.read_layering(ctx, '3')
+
+    # 4. the "None = rewritten in place" contract of write_node_plan: every caller inspects the returned Option before the
+    #    address is stored (forwarding None as a child/root address would detach the subtree that was rewritten in place)
+    WNP = 'btree::BTreeTable::write_node_plan'
+    INSPECT = re.compile(r'option::Option::<T>::(is_some|is_none|is_some_and|is_none_or|or|or_else|xor|unwrap_or|unwrap_or_else|map_or|map_or_else|and_then|map|inspect|zip|filter|ok_or|ok_or_else)$')
+    nsites = 0
+    for b in sorted(F.bodies.values(), key=lambda x: x.path):
+        for site in b.call_sites(WNP):
+            if site not in b.normal_blocks():
+                continue
+            nsites += 1
+            t = b.term(site)
+            hold = {t['d'][0]}       # locals holding the result (Result, ControlFlow, then the Option itself)
+            changed = True
+            while changed:
+                changed = False
+                for bi in b.normal_blocks():
+                    for st in b.blocks[bi]['s']:
+                        if st['k'] != 'assign' or st['p'][0] in hold:
+                            continue
+                        r = st['r']
+                        src = None
+                        if r['k'] == 'use' and op_place(r['a'][0]):
+                            src = op_place(r['a'][0])[0]
+                        elif r['k'] in ('ref', 'copyderef'):
+                            src = r['p'][0]
+                        if src in hold and len(st['p']) == 1:
+                            hold.add(st['p'][0]); changed = True
+                    tm = b.term(bi)
+                    if tm['k'] == 'call' and call_matches(tm, ['std::ops::Try::branch']) and tm['a'] and op_local(tm['a'][0]) in hold and tm['d'][0] not in hold:
+                        hold.add(tm['d'][0]); changed = True
+            opt = {l for l in hold if l < len(b.locals) and 'Option<' in str(b.locals[l]) and 'Result<' not in str(b.locals[l]) and 'ControlFlow<' not in str(b.locals[l])}
+            inspected = False
+            for bi in b.normal_blocks():
+                for st in b.blocks[bi]['s']:
+                    if st['k'] == 'assign' and st['r']['k'] == 'discr' and st['r']['p'][0] in opt and len(st['r']['p']) == 1:
+                        inspected = True
+                tm = b.term(bi)
+                if tm['k'] == 'call' and INSPECT.search(tm.get('r') or tm.get('f') or '') and tm['a'] and op_local(tm['a'][0]) in opt:
+                    inspected = True
+            passthrough = 0 in hold
+            ctx.ob('4a in-place-result-inspected %s' % b.path, 'K9-agreement', b.path,
+                   'the Option returned by write_node_plan (None = node rewritten at its old address) is inspected by the caller (is_some / match / or(..)) before it is stored as an address' + (' [returned to its own caller]' if passthrough else ''),
+                   inspected or passthrough, 'the result is stored or forwarded without looking at None', b.loc(site))
+    ctx.ob('4b write_node_plan-callers', 'anchor', WNP, 'write_node_plan has four call sites (root split, root rewrite, child rewrite, split child)', nsites >= 4, 'found %d' % nsites)
